@@ -144,6 +144,32 @@ CHECKS['C11'] = dict(
          'before any hashing, and the key-helper slots of all nine variants are bound to kernels of the same algorithm and key size.',
     design='§3 C11', note=TB)
 
+CHECKS['C04'] = dict(
+    technique='static analysis: CFG typestate on the C multi-buffer managers; typed abstract interpretation of the assembled managers (stores classified by C record layout); guard-catalogue bounds vs 16-bit lane lengths',
+    text='NOT decided: that SIMD lanes never influence each other and that scheduling arithmetic is right for every occupancy (value-level). '
+         'Decided (lane bookkeeping): the C SHA managers pop/park on submit and push/clear/complete on every completed return, neutralise idle '
+         'lanes on flush, and the three width-siblings agree; each of the ~160 assembled out-of-order manager routines with a job_in_lane array '
+         'that completes a job also clears the slot and returns the lane, submit parks the job argument and pops a lane, and the stage bit is the '
+         'manager\'s own; every mode/algorithm parked in a manager with 16-bit lane lengths has a validation bound <= 0xFFFF (this rule found K12).',
+    design='§3 C04', note=TB_ASM + '; managers that keep job_in_lane inside ldata[lane] (HMAC, XCBC) are addressed through computed pointers the typed view does not follow (counted in evidence)')
+CHECKS['C13'] = dict(
+    technique='static analysis: CFG must-scrub typestate on C locals, arch-sibling agreement, zero/non-zero abstract interpretation of vector registers at every exit of every assembled function, typed zero-store coverage of manager fields against a reference baseline',
+    text='Partial; each clause is a necessary condition. C side: locals the code scrubs are scrubbed on every path from their uses to every return '
+         '(found K11), arch siblings scrub the same locals (found K9), register-scrub macros cover all returns after kernel calls. Object level: all '
+         '247 exported asm functions return with every vector register zero on every path except 33 individually reasoned exceptions (found K5); 281 '
+         'further C-callable kernels that are vector-clean on the reference tree stay clean; per manager routine the field-relative byte ranges zeroed '
+         'on the reference tree (keys, IVs, digests, lane slots) are still zeroed; whole-manager clears and road blocks. NOT decided: absence of secrets '
+         'in GPRs, in asm stack frames and in manager storage in general (needs secret-taint with declassification of tags/ciphertext).',
+    design='§3 C13', note=TB_ASM + '; baselines imbv/data/vec_clean_baseline.json and scrub_baseline.json hold semantic facts of the reference tree (function names, field-relative ranges), no source text')
+CHECKS['C19'] = dict(
+    technique='static analysis: AST table-ownership rule; field-sensitive interprocedural secret-taint over the C code of the five SAFE_LOOKUP units; object-level taint of the 13 assembly lookup primitives',
+    text='Decides for the C implementations of DES/3DES/DOCSIS-DES, KASUMI and SNOW3G (SAFE_LOOKUP build): every use of a constant table is a '
+         'constant-time lookup primitive, a full-width 16-byte LUT load, a constant or reasoned public index (gathers and data subscripts are '
+         'violations); scalar lookups scan the whole table; no branch / loop / ?: condition, subscript or copy size is reachable by taint from the key '
+         'schedules (type-based sources; external caller buffers are public); the lookup primitives never let the index reach an address or a branch. '
+         'Scope: the multi-buffer SNOW3G/ZUC assembly managers and DES AVX512 assembly are not analysed; compiler-introduced branches are not visible at this level.',
+    design='§3 C19', note=TB_ASM + '; taint is flow-insensitive and context-insensitive (over-approximate); output written to caller-supplied buffers is treated as public')
+
 NOT_APPLICABLE = {
     'C07': 'bounds of SIMD loads/stores relative to run-time lengths need relational numeric invariants over ~850 '
            'hand-written assembly functions; no sound static argument in reach (no frama-c; CSA/cppcheck do not see NASM)',
